@@ -193,7 +193,7 @@ def bulk_sets(ctx):
             shutil.rmtree(d, ignore_errors=True)
 
     ckw = sorted(set(C11_KEYWORDS) | set(CXX20_KEYWORDS))
-    pykw = sorted(set(keyword.kwlist) | set(getattr(keyword, "softkwlist", [])) | {b for b in dir(builtins) if not b.startswith("__")})
+    pykw = sorted(set(keyword.kwlist) | set(getattr(keyword, "softkwlist", [])) | set(dir(builtins)))
     out = []
     for cls, words, cfgs in (("c+cpp keywords", ckw, ["c", "cpp14", "cpp17pmr", "cpp20"]), ("py keywords+builtins", pykw, ["py"])):
         for pos in ("field", "const", "type"):
@@ -205,25 +205,38 @@ def bulk_sets(ctx):
                         seen.add(w.lower())
                         uniq.append(w)
                 ws = uniq
-            if not ws:
-                continue
-            files = {}
-            chunks = [ws[i:i + 48] for i in range(0, len(ws), 48)]  # see wide_set(): very wide types meet an interpreter limit of their own
-            if pos == "field":
-                for n, ch in enumerate(chunks):
-                    files["broot/Bulk%d.1.0.dsdl" % n] = "".join("uint8 %s\n" % w for w in ch) + "@sealed\n"
-                    files["broot/BulkU%d.1.0.dsdl" % n] = "@union\n" + "".join("uint8 %s\n" % w for w in ch) + "@sealed\n"
-            elif pos == "const":
-                for n, ch in enumerate(chunks):
-                    files["broot/Bulk%d.1.0.dsdl" % n] = "".join("uint8 %s = %d\n" % (w, i % 200) for i, w in enumerate(ch)) + "@sealed\n"
-            else:
-                for w in ws:
-                    files["broot/%s.1.0.dsdl" % w] = "uint8 a\n@sealed\n"
-                for n, ch in enumerate(chunks):
-                    files["broot/User%d.1.0.dsdl" % n] = "".join("%s.1.0 f%d\n" % (w, i) for i, w in enumerate(ch)) + "@sealed\n"
-            key = "bulk|%s|%s|%d words" % (pos, cls, len(ws))
-            out.append(({"id": "b-" + sha(key)[:10], "roots": ["broot"], "files": files,
-                         "meta": {"src": "names", "pos": pos, "cls": "bulk:" + cls, "kind": "struct", "word": "*", "key": key, "words": ws}}, cfgs))
+            # names that the documented one-way stropping may fold onto one identifier (the property's exclusion covers the WHOLE scope they
+            # share) must not meet in one scope: spellings that agree up to case and leading underscores (_Bool / bool) go to different sets
+            layers = []
+            for w in ws:
+                k = w.lstrip("_").lower()
+                for lay in layers:
+                    if k not in lay[0]:
+                        lay[0].add(k)
+                        lay[1].append(w)
+                        break
+                else:
+                    layers.append(({k}, [w]))
+            for ln, (_, lws) in enumerate(layers):
+                root = "broot%d" % ln
+                files = {}
+                chunks = [lws[i:i + 48] for i in range(0, len(lws), 48)]  # see wide_set(): very wide types meet an interpreter limit of their own
+                if pos == "field":
+                    for n, ch in enumerate(chunks):
+                        files["%s/Bulk%d.1.0.dsdl" % (root, n)] = "".join("uint8 %s\n" % w for w in ch) + "@sealed\n"
+                        if len(ch) > 1:
+                            files["%s/BulkU%d.1.0.dsdl" % (root, n)] = "@union\n" + "".join("uint8 %s\n" % w for w in ch) + "@sealed\n"
+                elif pos == "const":
+                    for n, ch in enumerate(chunks):
+                        files["%s/Bulk%d.1.0.dsdl" % (root, n)] = "".join("uint8 %s = %d\n" % (w, i % 200) for i, w in enumerate(ch)) + "@sealed\n"
+                else:
+                    for w in lws:
+                        files["%s/%s.1.0.dsdl" % (root, w)] = "uint8 a\n@sealed\n"
+                    for n, ch in enumerate(chunks):
+                        files["%s/User%d.1.0.dsdl" % (root, n)] = "".join("%s.%s.1.0 f%d\n" % (root, w, i) for i, w in enumerate(ch)) + "@sealed\n"
+                key = "bulk|%s|%s|layer %d|%d words" % (pos, cls, ln, len(lws))
+                out.append(({"id": "b-" + sha(key)[:10], "roots": [root], "files": files,
+                             "meta": {"src": "names", "pos": pos, "cls": "bulk:" + cls, "kind": "struct", "word": "*", "key": key, "words": lws}}, cfgs))
     return out
 
 
@@ -813,6 +826,7 @@ def decl_cause(argv, out, sdir, diag, names, cfg, omode):
     standard library and from the generated support library and then declares `extern int <identifier>;` is refused by the same tool
     with the same flags (while the same probe with a fresh identifier is accepted).  Returns the identifier or ''.  Labels only."""
     path, toks = _diagnosed_tokens(sdir, diag, names)
+    toks = toks - set(C11_KEYWORDS) - set(CXX20_KEYWORDS)  # a keyword is refused by the probe as well, but it is not a library name
     if not toks or path is None:
         return ""
     incs = []
